@@ -93,6 +93,7 @@ func TestC44_MinerRound(t *testing.T) {
 	}
 	c44kit.Run(t, c44kit.Object{
 		Name:  "minerround",
+		Roles: []string{"miner"},
 		Ops:   ops,
 		Fresh: fresh,
 		Known: []c44kit.KnownPair{
